@@ -246,7 +246,7 @@ import numpy as np
 from collections import OrderedDict
 import funsor; funsor.set_backend("numpy")
 from funsor import ops, Variable, Tensor, Bint
-from funsor.domains import Array
+from funsor.domains import Array, Real, Reals
 from funsor.terms import *
 from funsor.interpretations import reflect
 from funsor.interpreter import reinterpret
@@ -293,6 +293,14 @@ def result_defect(L, R):
     return None
 
 
+class Decl:
+    """A declaration predicted by `type_of`, standing in for the lazy term where reflect cannot build it."""
+
+    def __init__(self, pin, pout):
+        self.inputs = OrderedDict((k, Array[dt, tuple(sh)]) for k, (dt, sh) in pin.items())
+        self.output = Array[pout[0], tuple(pout[1])]
+
+
 class TermRun:
     def __init__(self, ctx):
         self.ctx = ctx
@@ -304,15 +312,24 @@ class TermRun:
         ctx.count(f"ctor:{kind}")
         if region:
             self.known_seen[region] = self.known_seen.get(region, 0) + 1
+        desc = dict(stream="constructor", kind=kind, recipe=describe(r))
         try:
             with reflect:
                 L = builder(r)
         except Exception as e:
+            # reflect cannot build it (e.g. Reduce over a variable absent from the argument: KeyError in
+            # _alpha_convert) — a decline; the eager result is then held against the predicted declaration
             ctx.count(f"ctor:{kind}:lazy-raises:{type(e).__name__}")
-            ctx.case()
-            return
-        desc = dict(stream="constructor", kind=kind, recipe=describe(r))
-        if predicted:
+            L = None
+            if predicted:
+                try:
+                    L = Decl(*type_of(r))
+                except NotImplementedError:
+                    L = None
+            if L is None:
+                ctx.case()
+                return
+        if predicted and not isinstance(L, Decl):
             try:
                 pin, pout = type_of(r)
             except NotImplementedError:
@@ -332,6 +349,8 @@ class TermRun:
         nontrivial = None
         for label, thunk, src in (("eager", lambda: builder(r), "mk()"),
                                   ("reinterpret", lambda: reinterpret(L), "reinterpret(L)")):
+            if label == "reinterpret" and isinstance(L, Decl):
+                continue
             with np.errstate(all="ignore"):
                 try:
                     R = thunk()
@@ -348,7 +367,7 @@ class TermRun:
                 continue
             if bad:
                 ctx.fail("input", f"C06.ctor-{label}-{bad}:{kind}", witness=desc,
-                         expected=f"lazy {type(L).__name__} inputs {dict(L.inputs)} output {L.output}; data shape = batch "
+                         expected=f"declared ({type(L).__name__}) inputs {dict(L.inputs)} output {L.output}; data shape = batch "
                                   f"sizes + output shape; Bint values in range",
                          got=f"{type(R).__name__} inputs {dict(R.inputs)} output {R.output} data shape "
                              f"{np.shape(getattr(R, 'data', ()))}",
@@ -430,10 +449,9 @@ def constructor_cases(run, tier):
                                 run.check("reduce", ("reduce", op, T(ins, "real", ev), tuple(red) + absent))
                             for op in ("max", "min"):
                                 run.check("reduce", ("reduce", op, T(ins, 3, ev), tuple(red) + absent))
-                            if ctx.is_open(KF_REDUCE):
-                                for op in ("add", "mul"):
-                                    run.check("reduce-bint-addmul", ("reduce", op, T(ins, 3, ev), tuple(red) + absent),
-                                              region=KF_REDUCE)
+                            for op in (("add", "mul") if not absent else ()):
+                                run.check("reduce-bint-addmul", ("reduce", op, T(ins, 3, ev), tuple(red) + absent),
+                                          region=KF_REDUCE)
         run.check("reduce", ("reduce", "add", T((("a", 2),), "real", ev), (("z", 3),)))
 
     # ---- Subs: numbers, renames, index tensors, slices --------------------------------------------------
@@ -454,8 +472,8 @@ def constructor_cases(run, tier):
                     run.check("subs-two", ("subs", base, ((name, ("num", 0, size)), (o, ("var", "q", dict(ins)[o], ())))))
                 for start, stop, step in ((0, size, 1), (0, size, 2), (1, size, 1), (size, size, 1)):
                     run.check("subs-slice", ("subs", base, ((name, ("slice", "t", start, stop, step, size)),)))
-            if len(ins) >= 2:
-                (n1, s1), (n2, s2) = ins[0], ins[1]
+            if len(ins) >= 3:
+                (n1, s1), (n2, s2) = ins[0], ins[2]
                 if s1 == s2:
                     run.check("subs-swap", ("subs", base, ((n1, ("var", n2, s2, ())), (n2, ("var", n1, s1, ())))))
 
@@ -540,18 +558,19 @@ def random_recipes(run, n):
         except Exception as e:
             ctx.count(f"ctor:random:gen-raises:{type(e).__name__}")
             continue
-        run.check("random", recipe, predicted=False, builder=G.build,
-                  pyfn=lambda rr: "None  # gen_terms recipe: " + repr(G.describe(rr))[:1500])
+        run.check("random", recipe, predicted=False, builder=G.build, pyfn=G.python_of)
 
 
-def run_constructors(ctx, tier):
+def run_constructors(ctx, tier, report=True):
     run = TermRun(ctx)
     constructor_cases(run, tier)
     random_recipes(run, 600 if tier == "quick" else 6000)
     hit = run.known_hit.get(KF_REDUCE)
     ctx.extra.setdefault("known_regions", {})[KF_REDUCE] = dict(cases=run.known_seen.get(KF_REDUCE, 0), witness=hit,
                                                                  listed=ctx.is_open(KF_REDUCE))
-    if run.known_seen.get(KF_REDUCE):
-        ctx.known(KF_REDUCE, reproduced=hit is not None,
-                  what=f"Reduce(add/mul) over a Bint-valued tensor keeps Bint[n]; e.g. {hit}")
+    if report and run.known_seen.get(KF_REDUCE):
+        ok = ctx.known(KF_REDUCE, reproduced=hit is not None,
+                       what=f"Reduce(add/mul) over a Bint-valued tensor keeps Bint[n]; e.g. {hit}")
+        if not ok and hit is not None:
+            ctx.fail("input", f"C06.{KF_REDUCE}", witness=hit, expected="values inside the declared domain", got=str(hit))
     return run
